@@ -58,7 +58,7 @@ raises an alarm on one of them either depends on an unspecified detail (a false 
 corrected) or the change does break a property after all (then it is a seeded change, not a benign
 one). Kept under `/verif/benign/<id>/`. After the last strengthening of the checks all eighty were run once more against the
 final checks (`out/benignfinal*.tsv`; and, after the very last changes, against the six checks those touched, `out/benignfinalB*.tsv`):
-seventy-nine raise nothing, `C01-b1` is reported by C03 (see its verdict).
+seventy-nine raise nothing, `C01-b1` is reported by C03 (see its verdict). After round 7 (the command-line probe of C18, `cut` in C19, the saturation class of C05, the new C20 classes and the two construction histories of the shared matrix builder and of C08) the thirty-four behaviour-preserving changes written against C02 C03 C04 C05 C08 C17 C18 C19 C20 were run against the checks those additions touched (C02 C05 C08 C09 C17 C18 C19 C20): no alarm.
 
 {chr(10).join(brow)}
 
